@@ -33,6 +33,15 @@ Notation graph := (graph W).
 
 Definition all_ok (g : graph) : Prop := forall n w, weight g n = Some w -> ok w.
 
+(* a sufficient condition that can be checked slot by slot *)
+Lemma all_ok_slots (g : graph) :
+  Forall (fun s => match s with Some w => ok w | None => True end) (slots g) -> all_ok g.
+Proof.
+  intros H n w Hw. unfold weight in Hw.
+  destruct (nth_error (slots g) n) as [[w0|]|] eqn:E; try discriminate. injection Hw as <-.
+  apply nth_error_In in E. rewrite Forall_forall in H. exact (H _ E).
+Qed.
+
 Lemma collect_okb (g : graph) n : all_ok g -> forall l r, collect bufs g n l = Ok r -> Forall okb (map snd r).
 Proof.
   intros Hok. induction l as [|u t IH]; intros r; cbn [collect].
